@@ -260,7 +260,7 @@ impl C12 {
         let (got, from) = w.server_mut::<Peer>(sidx).map(|p| (p.got.clone(), p.from.clone())).unwrap_or_default();
         match res {
             Some(Ok(data)) => {
-                let exp: Vec<u8> = if tcp { reply.clone() } else { reply[.. reply.len().min(want.unwrap_or(1024))].to_vec() };
+                let exp: Vec<u8> = if tcp { reply.clone() } else { reply[.. reply.len().min(want.unwrap_or(usize::MAX))].to_vec() /* no size requested: the whole datagram */ };
                 if data != exp {
                     out.violate(Violation::new(
                         format!("{fam}|received-bytes-differ"),
